@@ -168,6 +168,8 @@ def _parseInventoryLine(line: str) -> Tuple[str, str, int, str, str]:
                 prio_idx += 1
     except IndexError:
         raise ValueError("Could not find priority column")
+    if prio_idx + 1 >= len(parts):
+        raise ValueError("Location column is missing")
 
     name = ' '.join(parts[: prio_idx - 1])
     typ = parts[prio_idx - 1]
